@@ -461,10 +461,11 @@ func c08FileStamp(c *Check) {
 						return
 					}
 					dep := derives(st.Val, func(v ssa.Value) bool {
-						if _, f2, _, ok := loadedField(v); ok && strings.EqualFold(f2, "filename") {
+						if _, f2, _, ok := loadedField(v); ok && fileNameFields(p)[strings.ToLower(f2)] {
 							return true
 						}
-						if prm, ok := v.(*ssa.Parameter); ok && typeIs(prm.Type(), repoMod+"/pkg/parse", "sourceCtxHelper") {
+						// a stamp built by the caller and handed in (a parameter of the stamp's own type)
+						if prm, ok := v.(*ssa.Parameter); ok && types.Identical(prm.Type(), st.Val.Type()) {
 							return true
 						}
 						return false
